@@ -24,7 +24,7 @@
          chk_C04 ifs h wakes (map obs_of (run_history ifs h)) = true ). *)
 From Coq Require Import List NArith Bool.
 From Mdns Require Import Res Bytes Rec Wire Txt Cache Browser C03Spec BrowserSpec BrowserKnown CacheProofs
-  CacheInvProofs BrowserStepProofs SpecTrackProofs C05SafetyProofs C04StepProofs C04ScheduleProofs BrowserExamples.
+  CacheInvProofs BrowserStepProofs SpecTrackProofs BrowserProofs C05SafetyProofs C04StepProofs C04ScheduleProofs AouCasesProofs C04OrderProofs BrowserExamples.
 Import ListNotations.
 Open Scope N_scope.
 
@@ -222,6 +222,52 @@ Theorem C04_found_and_resolved_refuted :
   exists ifs h wakes, wf_history h = true /\ chk_C04 ifs h wakes (map obs_of (run_history ifs h)) = false.
 Proof. exact chk_C04_refuted. Qed.
 
+(* Clause F over histories (round 5).  Full statement:
+       forall ifs h wakes, wf_history h = true ->
+         forall f, In f (viol_C04 ifs h wakes (map obs_of (run_history ifs h))) -> is_order_fail f = false
+   i.e. the checker never reports "ServiceResolved on a channel on which the instance was not
+   reported found before".  It is FALSE of the faithful model and of the daemon
+   (C04_known_browse_expiring_witness, finding C04-browse-over-expiring-ptr): when browse starts
+   while a cached PTR record of the type (TTL > 1) is in its last second, the cached instance is
+   not reported, and a refresh of that PTR record is not "new", so a later SRV + address gives
+   ServiceResolved with no ServiceFound.  Proved outside exactly that class
+   (known_browse_expiring, executable, Model/BrowserKnown.v): for every history in which time
+   does not run backwards and whatever the wake-ups. *)
+Theorem C04_resolved_only_after_found_partial : forall ifs h wakes,
+  wf_history h = true -> known_browse_expiring ifs h = false ->
+  forall f, In f (viol_C04 ifs h wakes (map obs_of (run_history ifs h))) -> is_order_fail f = false.
+Proof. exact resolved_only_after_found. Qed.
+
+(* The same for one iteration, from any state: F lists the (channel, instance) pairs reported
+   found so far; FI says every cached PTR entry of a browsed type with TTL > 1 is in F under the
+   type's channel.  Then every ServiceResolved of the iteration is preceded by its ServiceFound,
+   and FI holds again. *)
+Theorem C04_iteration_resolved_only_after_found : forall ifs prev s sp it F,
+  Inv prev (s_cache s) -> times_le prev (i_now it) -> FI (s_cache s) (s_q s) F -> tracks s sp ->
+  calls_browse_expiring (i_now it)
+    (last (scan (spec_dgram ifs (i_now it)) sp (deliveries_in_order (i_dgrams it))) sp) (i_calls it) = false ->
+  order_ok F (snd (iterate ifs s it))
+  /\ FI (s_cache (fst (iterate ifs s it))) (s_q (fst (iterate ifs s it))) (F ++ founds (snd (iterate ifs s it))).
+Proof. exact iterate_order. Qed.
+
+(* Witness of the excluded class (the daemon agrees, corpus case browse-expiring-ptr). *)
+Theorem C04_known_browse_expiring_witness :
+  wf_history brexp_hist = true
+  /\ known_browse_expiring ex_ifs brexp_hist = true
+  /\ safe_class ex_ifs brexp_hist = true
+  /\ existsb (existsb is_found_evt) (run_history ex_ifs brexp_hist) = false
+  /\ map (fun o => existsb is_resolved_evt o) (run_history ex_ifs brexp_hist) = [false; false; false; true; false]
+  /\ existsb is_order_fail (viol_C04 ex_ifs brexp_hist (ex_wakes brexp_hist) (map obs_of (run_history ex_ifs brexp_hist))) = true.
+Proof. exact browse_expiring_witness. Qed.
+
+Example C04_resolved_only_after_found_example :
+  wf_history ex_hist = true /\ known_browse_expiring ex_ifs ex_hist = false
+  /\ existsb (existsb is_resolved_evt) (run_history ex_ifs ex_hist) = true
+  /\ known_browse_expiring ex_ifs lastsec_hist = false
+  /\ known_browse_expiring ex_ifs srvtgt_hist = false
+  /\ known_browse_expiring ex_ifs restart_hist = false.
+Proof. exact order_example. Qed.
+
 (* Non-vacuity: histories that pass chk_C04 - PTR only: questions (instance, ANY) exactly in the
    iterations at +500, +1000, +1500; and the announce / update / goodbye history of C03. *)
 Example C04_example_followup :
@@ -272,6 +318,10 @@ Print Assumptions C04_at_most_one_resolved.
 Print Assumptions C04_one_resolved_example.
 Print Assumptions C04_followup_schedule_invariant.
 Print Assumptions C04_followup_schedule_example.
+Print Assumptions C04_resolved_only_after_found_partial.
+Print Assumptions C04_iteration_resolved_only_after_found.
+Print Assumptions C04_known_browse_expiring_witness.
+Print Assumptions C04_resolved_only_after_found_example.
 Print Assumptions C04_known_dotted_witness.
 Print Assumptions C04_known_last_second_refresh_witness.
 Print Assumptions C04_found_and_resolved_refuted.
